@@ -13,6 +13,7 @@ use crate::uni::{
 };
 
 pub const SCAN: u64 = 3400;
+#[allow(dead_code)]
 pub const KMAX: usize = 260;
 pub const MAX_REL_HORIZON: u64 = 3000;
 
